@@ -674,6 +674,27 @@ pub fn writers_agree<T: Encodable>(x: &T, buf: &[u8], len: usize) -> bool {
     }
     true
 }
+/// serialisation with the encoder's contract checked: reported length = bytes written, same bytes on every writer
+pub fn ser_checked<T: Encodable + std::fmt::Debug>(x: &T) -> Result<Vec<u8>, &'static str> {
+    let mut buf = Vec::new();
+    let len = x.consensus_encode(&mut buf).map_err(|_| "ENCODE-FAILED")?;
+    if len != buf.len() {
+        return Err("LENGTH-MISMATCH");
+    }
+    if !writers_agree(x, &buf, len) {
+        return Err("WRITER-MISMATCH");
+    }
+    if monero::consensus::encode::serialize(x) != buf {
+        return Err("SERIALIZE-MISMATCH");
+    }
+    Ok(buf)
+}
+pub fn ser_checked_hex<T: Encodable + std::fmt::Debug>(x: &T) -> String {
+    match ser_checked(x) {
+        Ok(b) => show_hex(&b),
+        Err(m) => m.to_string(),
+    }
+}
 pub fn readers_agree<T: Decodable + std::fmt::Debug>(b: &[u8], r: &Result<(T, usize), monero::consensus::encode::Error>) -> bool {
     let mut d = Drip { b, pos: 0 };
     match (T::consensus_decode(&mut d), r) {
@@ -833,7 +854,7 @@ fn rct_direct(op: &str, args: &[&str]) -> Option<String> {
                 Ok(Some(x)) => format!(
                     "OK {} {} {}",
                     cur.position(),
-                    show_hex(&monero::consensus::encode::serialize(&x)),
+                    ser_checked_hex(&x),
                     show(&x)
                 ),
                 Ok(None) => "OK-NONE".into(),
@@ -847,7 +868,18 @@ fn rct_direct(op: &str, args: &[&str]) -> Option<String> {
             Some(match RctSigPrunable::consensus_decode(&mut cur, ty, num(i)?, num(o)?, num(m)?) {
                 Ok(Some(x)) => {
                     let mut buf = Vec::new();
-                    x.consensus_encode(&mut buf, ty).unwrap();
+                    let len = x.consensus_encode(&mut buf, ty).unwrap();
+                    // reported length = bytes written; the same bytes into a one-byte-per-call writer; nothing at all for type Null
+                    let mut c = Chunk(Vec::new());
+                    let mut none = Vec::new();
+                    if len != buf.len()
+                        || x.consensus_encode(&mut c, ty).ok() != Some(len)
+                        || c.0 != buf
+                        || x.consensus_encode(&mut none, RctType::Null).ok() != Some(0)
+                        || !none.is_empty()
+                    {
+                        return Some("LENGTH-MISMATCH".into());
+                    }
                     format!("OK {} {} {}", cur.position(), show_hex(&buf), show(&x))
                 }
                 Ok(None) => "OK 0 - none".into(),
